@@ -1,6 +1,7 @@
 """B-filter: write::unit::convert::{FilterDependencies, ...}  (DESIGN.md 6 C19).  -- header completed at the end of file
 """
 import re
+import lib
 from lib import *
 from batches import core
 
@@ -338,7 +339,7 @@ OP_REFS = [
 ]
 # payload types (as written in the enum definitions) that can name an entry; used to check OP_REFS / ATTR_REFS against
 # the enum definitions read from source: a variant with such a payload that is in neither table is `Lost` (exit 2).
-OP_REF_FIELD = re.compile(r'\b(UnitOffset<Offset>|DebugInfoOffset<Offset>|DieReference<Offset>|expression: R)\b')
+OP_REF_FIELD = re.compile(r'\b(UnitOffset<Offset>|DebugInfoOffset<Offset>|DieReference<Offset>|expression: R\b)')
 ATTR_REFS = {          # variant -> how it contributes
     'UnitRef': 'unit', 'DebugInfoRef': 'info', 'Exprloc': 'expr', 'LocationListsRef': 'loclist', 'DebugLocListsIndex': 'loclist-index'}
 ATTR_NOT_REFS = {      # payload could name an entry, but not one of this conversion (reason in the report)
@@ -352,7 +353,7 @@ def enum_variants(item_text):
     b = body_open(item_text, re.search(r'\benum\b', item_text).start())
     e = match_close(item_text, b)
     out = []
-    for part in _split_top(item_text[b + 1:e]):
+    for part in lib._split_top(item_text[b + 1:e]):
         part = re.sub(r'#\[[^\]]*\]', '', part).strip()
         m = re.match(r'(\w+)\s*(.*)$', part, re.S)
         out.append((m.group(1), m.group(2)))
@@ -492,7 +493,7 @@ def populate_refs(ctx, sk):
     rll = Source('read/loclists.rs', ctx)
     rrl = Source('read/rnglists.rs', ctx)
     M = 'write::unit::convert'
-    check_tables(op.item(r'^pub enum Operation<R, Offset').text, ru.item(r'^pub enum AttributeValue<R, Offset').text)
+    check_tables(op.item(r'^pub enum Operation<R, Offset').clean().text, ru.item(r'^pub enum AttributeValue<R, Offset').clean().text)
     sk.mods['fspec']['uses'] += '''
 use crate::common::*;
 use crate::read::{Reader, Operation, DieReference};
@@ -523,7 +524,7 @@ use crate::vspec::RView;'''
     sk.add('read::unit', ru.item(r'^pub enum UnitType<Offset>', label='UnitType').clean(rejrec=['Offset']))
     sk.add('common', Source('common.rs', ctx).item(r'^pub enum SectionId').clean())
     sk.add('read::unit', ru.item(r'^pub struct UnitHeader<R, Offset', label='UnitHeader(struct)').clean(rejrec=['R', 'Offset']))
-    uh = ru.item(r'^impl<R, Offset> UnitHeader<R, Offset>', label='UnitHeader', with_attrs=False)
+    uh = ru.item(r'^impl<R, Offset> UnitHeader<R, Offset>\s+where\s+R: Reader<Offset = Offset>,\s+Offset: ReaderOffset,\s+\{\s+pub fn section\(', label='UnitHeader', with_attrs=False)    # the 'instance methods' impl
     uh.keep_only(['offset', 'encoding', 'is_in_bounds'])
     # header_size()/entries_buf arithmetic belongs to the units batch; here the bound is an uninterpreted predicate
     uh.extbody(['is_in_bounds'])
